@@ -69,6 +69,10 @@ Eval(s, ev) ==
          ELSE LET s2 == CtxSet(s, ev.fc, ev.a, ev.vals) IN
               ok(raisedC \cup (IF Seq2Set(ev.chg) # CtxChg(s, s2) THEN {"CtxSet"} ELSE {})
                   \cup (IF ev.ext # 0 THEN {"Extent"} ELSE {}), s2)
+    [] ev.op = "creset" ->
+         LET s2 == [s EXCEPT !.blocks = [id \in DOMAIN s.blocks |-> ResetBlock(s.blocks[id])]] IN
+         ok(raisedC \cup (IF Seq2Set(ev.chg) # CtxChg(s, s2) THEN {"CtxReset"} ELSE {})
+             \cup (IF ev.ext # 0 THEN {"Extent"} ELSE {}), s2)       \* (zero-mode and the table map are not touched: later events show it)
     [] ev.op = "sget" -> ok(IF ev.res # SrvGet(s, ev.u) THEN {"Routing"} ELSE {}, s)
     [] ev.op = "shas" -> ok(IF ev.res # Bool(SrvHas(s, ev.u)) THEN {"Contains"} ELSE {}, s)
     [] ev.op = "sset" ->
